@@ -314,9 +314,6 @@ func (d *driver) analyze(res *runResult) {
 		res.rep = &oracle.Report{Stats: map[string]int64{}, Samples: map[string][]string{}, Inconclusive: []string{"no event log: " + err.Error()}}
 	} else {
 		a := oracle.New()
-		if res.spec.pe.Engine == "B" {
-			a.Universe = true
-		}
 		for _, r := range recs {
 			a.Feed(r)
 		}
@@ -468,9 +465,6 @@ func doReplay(prop, dir string) int {
 		return 2
 	}
 	a := oracle.New()
-	if b, err := os.ReadFile(filepath.Join(dir, "cmdline.txt")); err == nil && strings.Contains(string(b), "-engine B") {
-		a.Universe = true
-	}
 	for _, r := range recs {
 		a.Feed(r)
 	}
